@@ -37,7 +37,7 @@ Theorem qty_fmt_spec q form : u_symbol S (q_unit S q) <> [] ->
 Proof.
   intros Hne. unfold Quantity_fmt. destruct (u_symbol S (q_unit S q)) as [|c s] eqn:E; [contradiction|].
   cbn zeta. unfold tmpl_Display_Unit_none. rewrite unit_fmt_default, E.
-  unfold abs_amount, non_negative, amount_spec. destruct (a_is_dec am); destruct (f_prec form); reflexivity.
+  unfold abs_amount, non_negative, amount_spec. destruct (a_is_dec am); destruct (f_prec form); cbn zeta; rewrite <- ?app_assoc; reflexivity.
 Qed.
 
 (** unit-less values: the amount's own Display under the caller's formatter *)
